@@ -195,10 +195,10 @@ theorem cinv_gSel {s s' : St} {i p : Nat} {k h prog held} (hs : SInv s) (hc : CI
       | false => rfl
       | true => have := empty_after_shutdown hc hk hch; simp [hbuf] at this
     · exact Or.inl he
-  · simp only [Option.some.injEq] at hstep; subst hstep
-    exact CInv_frame hs hc ht rfl (Or.inl rfl) rfl rfl rfl (A_same rfl) (fun e he => Or.inl he) rfl
-  · simp only [Option.some.injEq] at hstep; subst hstep
-    exact CInv_frame hs hc ht rfl (Or.inl rfl) rfl rfl rfl (A_same rfl) (fun e he => Or.inl he) rfl
+  · split at hstep <;> (simp only [Option.some.injEq] at hstep; subst hstep) <;>
+      exact CInv_frame hs hc ht rfl (Or.inl rfl) rfl rfl rfl (A_same rfl) (fun e he => Or.inl he) rfl
+  · split at hstep <;> (simp only [Option.some.injEq] at hstep; subst hstep) <;>
+      exact CInv_frame hs hc ht rfl (Or.inl rfl) rfl rfl rfl (A_same rfl) (fun e he => Or.inl he) rfl
   · simp only [Option.some.injEq] at hstep; subst hstep
     exact CInv_frame hs hc ht rfl (Or.inl rfl) rfl rfl rfl (A_same rfl) (fun e he => Or.inl he) rfl
 
@@ -250,8 +250,8 @@ theorem cinv_gLock {s s' : St} {i p : Nat} {k prog held} (hs : SInv s) (hc : CIn
   · rename_i hlk
     have hln := lock_none_of hlk
     split at hstep
-    · simp only [Option.some.injEq] at hstep; subst hstep
-      exact CInv_frame hs hc ht rfl (Or.inl rfl) rfl rfl rfl (A_same rfl) (fun e he => Or.inl he) rfl
+    · split at hstep <;> (simp only [Option.some.injEq] at hstep; subst hstep) <;>
+        exact CInv_frame hs hc ht rfl (Or.inl rfl) rfl rfl rfl (A_same rfl) (fun e he => Or.inl he) rfl
     · rename_i h hlook
       have hmem := lookup_mem hlook
       have hnil := nil_false_of_mem hc hmem
@@ -347,8 +347,8 @@ theorem cinv_gDrain {s s' : St} {i p : Nat} {k h prog held} (hs : SInv s) (hc : 
     congr 1
     exact (set_self ht).symm
   · rename_i hr
-    simp only [Option.some.injEq] at hstep; subst hstep
-    exact cinv_drain_done hs hc ht hlk rfl hr (Or.inl rfl) rfl rfl (Or.inl rfl) rfl rfl rfl
+    split at hstep <;> (simp only [Option.some.injEq] at hstep; subst hstep) <;>
+      exact cinv_drain_done hs hc ht hlk rfl hr (Or.inl rfl) rfl rfl (Or.inl rfl) rfl rfl rfl
   · rename_i hr; exact absurd hr hnb.1
   · rename_i hr; exact absurd hr hnb.2
 
